@@ -596,6 +596,7 @@ def d6(repo: Repo) -> RuleResult:
         for r in _rets(fa.node):
             shape = _fstring_shape(r.value) if isinstance(r.value, ast.JoinedStr) else src_of(r.value)
             res.inst(part="py", where="PyFormatter.format_default_value_array", template=shape)
+            res.inst(part="py-array-default", where="PyFormatter.format_default_value_array", template=shape)
             if "] *" in shape or "]*" in shape:
                 # which element classes reach this template?
                 reach = []
@@ -612,7 +613,7 @@ def d6(repo: Repo) -> RuleResult:
                 mutable = [x for x in reach if x in ("Message", "Alias", "Array")]
                 if mutable:
                     fd = Finding("D6", pf.rel, r.lineno, "PyFormatter.format_default_value_array", shape, f"the array default repeats ONE element object `[x] * n` for element kinds {mutable}, whose defaults are mutable (an alias may name an array): all rows are the same object and decoded chunks are ORed into it", witness="type Row = uint8[2]; message M { Row[2] rows = 1 }: after decode both rows are equal, re-encoding differs", tag="py:default:array-shared")
-                    fd.part = "py-decode"
+                    fd.part = "py-array-default"
                     res.bad(fd)
     # enum proxy prefix: one constant everywhere
     pm = m.mod("impls/py/renderer.py")
